@@ -44,12 +44,24 @@ type Tape struct {
 	Out     []uint32 // values actually used (already reduced mod k)
 	Labels  []string // parallel to Out when KeepLabels
 	KeepLab bool
+	// Params are run parameters that are not drawn from the tape (e.g. the
+	// crash position of a fault-enumeration sub-run); stored in replay files.
+	Params map[string]string
 }
 
 func NewTape(seed uint64) *Tape { return &Tape{Seed: seed, rng: NewRNG(seed)} }
 
 func ReplayTape(seed uint64, vals []uint32) *Tape {
 	return &Tape{Seed: seed, replay: true, in: vals}
+}
+
+// Fork returns a fresh tape at position 0 with the same seed, mode and input
+// (the same schedule again, e.g. with another crash position).
+func (t *Tape) Fork() *Tape {
+	if t.replay {
+		return &Tape{Seed: t.Seed, replay: true, in: t.in}
+	}
+	return NewTape(t.Seed)
 }
 
 // Choose returns a value in [0,k). k<=1 consumes nothing.
